@@ -16,10 +16,16 @@ def build(succs):
     from xdsl.dialects import test
     from xdsl.ir import Block, Region
 
+    from xdsl.dialects.builtin import UnregisteredOp
+
     blocks = [Block() for _ in succs]
-    for b, ss in zip(blocks, succs):
+    for i, (b, ss) in enumerate(zip(blocks, succs)):
         b.add_op(test.TestOp.create())
-        b.add_op(test.TestTermOp.create(successors=[blocks[s] for s in ss]))
+        # every third branching block ends in a terminator of an UNREGISTERED dialect: its successors are control-flow edges like any other
+        if ss and (i + len(succs)) % 3 == 0:
+            b.add_op(UnregisteredOp.with_name("mycf.br").create(successors=[blocks[s] for s in ss]))
+        else:
+            b.add_op(test.TestTermOp.create(successors=[blocks[s] for s in ss]))
     return Region(blocks), blocks
 
 
